@@ -30,6 +30,9 @@ def canon_defs(b, objects):
                 return {"t": "dict", "v": [[list(k.encode()), cv(x)] for k, x in v.items()]}
             if v["type"] == "python":
                 return {"t": "ref", "n": idx.get(v["value"], -1)}
+            if v["type"] == "dict" and isinstance(v.get("value"), dict):
+                # the wrapped form of a dictionary that itself has a key named "type"
+                return {"t": "dict", "v": [[list(k.encode()), cv(x)] for k, x in v["value"].items()]}
             if v["type"] == "path":
                 sv = v["value"]
                 if b.wd and sv.startswith(b.wd):
